@@ -586,3 +586,4 @@ def run(chk, F):
         "the lock-word protocol are not decided (model checking)",
         "Dora code is analysed syntactically (receiver paths self.data / mtx / self.asm)",
     ]
+    from rules import a64; a64.run_c09(chk, F)  # noqa: E702  arm64 siblings (aarch64 fact set)
